@@ -166,12 +166,18 @@ fn run_unremarkable(run: &Value) -> bool {
 }
 
 fn write_doc<W: Write>(sink: &mut W, d: &Value, nl: bool) -> (Vec<&'static str>, &'static str) {
+    write_doc_dropping(sink, d, nl, 0)
+}
+
+/// `drop_mask`: link i's attribute writer is dropped without finish() when bit i is set (an API use as
+/// legitimate as finishing it: the document-level finish() must still report every failure)
+fn write_doc_dropping<W: Write>(sink: &mut W, d: &Value, nl: bool, drop_mask: u64) -> (Vec<&'static str>, &'static str) {
     let mut w = LinkFormatWrite::new(sink);
     if nl {
         w.set_add_newlines(true);
     }
     let mut lf = vec![];
-    for lk in d.as_array().unwrap() {
+    for (li, lk) in d.as_array().unwrap().iter().enumerate() {
         let mut a = w.link(&vstr(&lk["target"]));
         for at in lk["attrs"].as_array().unwrap() {
             let key = vstr(&at["key"]);
@@ -183,7 +189,12 @@ fn write_doc<W: Write>(sink: &mut W, d: &Value, nl: bool) -> (Vec<&'static str>,
                 _ => a.attr_u32(&key, val.parse::<u32>().unwrap_or_else(|_| tool_error("bad u32 attribute value in vector"))),
             };
         }
-        lf.push(if a.finish().is_ok() { "ok" } else { "err" });
+        if drop_mask >> (li % 64) & 1 == 1 {
+            drop(a);
+            lf.push("dropped");
+        } else {
+            lf.push(if a.finish().is_ok() { "ok" } else { "err" });
+        }
     }
     let fin = if w.finish().is_ok() { "ok" } else { "err" };
     (lf, fin)
@@ -447,7 +458,8 @@ pub fn rec_link(args: &Args) {
                 for k in 0..n.min(if thorough { 400 } else { 120 }) {
                     for (mode, mname) in [(1u8, "once"), (2u8, "from")] {
                         let mut sink = FaultSink { calls: vec![], mode, k };
-                        let res = guarded(|| write_doc(&mut sink, d, nl));
+                        let mask = [0u64, u64::MAX, 0xAAAA_AAAA_AAAA_AAAA, 0x5555_5555_5555_5555][(k + mode as usize) % 4];
+                        let res = guarded(|| write_doc_dropping(&mut sink, d, nl, mask));
                         out.ev(json!({"op": "fault", "d": d, "nl": nl, "mode": mname, "k": k, "panicked": res.is_none(),
                                       "calls": sink.calls.iter().map(|c| json!([cps(&c.0), c.1])).collect::<Vec<_>>(),
                                       "lf": res.as_ref().map(|b| json!(b.0)).unwrap_or(json!([])),
@@ -481,7 +493,8 @@ pub fn replay_linkfault(args: &Args) {
             for mode in [1u8, 2u8] {
                 rep.evaluated += 1;
                 let mut sink = FaultSink { calls: vec![], mode, k };
-                let res = guarded(|| write_doc(&mut sink, d, nl));
+                let mask = [0u64, u64::MAX, 0xAAAA_AAAA_AAAA_AAAA, 0x5555_5555_5555_5555][(k + mode as usize) % 4];
+                let res = guarded(|| write_doc_dropping(&mut sink, d, nl, mask));
                 let first_fail = sink.calls.iter().position(|c| !c.1);
                 let held: String = sink.calls.iter().filter(|c| c.1).map(|c| c.0.as_str()).collect();
                 let ok = match &res {
@@ -491,7 +504,7 @@ pub fn replay_linkfault(args: &Args) {
                             && *fin == "err"
                             && first_fail == Some(sink.calls.len() - 1)
                             && full.starts_with(&held)
-                            && lf.last() == Some(&"err")
+                            && (lf.last() == Some(&"err") || lf.last() == Some(&"dropped"))
                     }
                 };
                 if !ok {
